@@ -868,6 +868,9 @@ func (in *interpreter) runPath(fn ssaFunc, p *pathState, args []value) (out path
 	defer func() {
 		p.instrs = in.instrCount
 		r := recover()
+		if in.sch != nil {
+			in.sch.killAll()
+		}
 		func() {
 			defer func() {
 				if r2 := recover(); r2 != nil {
